@@ -151,7 +151,8 @@ Proof.
   all: try match goal with E : get LsAbsent (rls ?s) ?i = ?p |- _ =>
          assert (Hne : get LsAbsent (rls s) i <> LsAbsent) by (rewrite E; discriminate);
          pose proof (nfwd_upd (rls s) i LsIdle Hne) as Hfi; pose proof (nfwd_upd (rls s) i LsFwd Hne) as Hff;
-         rewrite E in Hfi, Hff; cbn [is_fwd b2n] in Hfi, Hff end.
+         pose proof (nfwd_upd (rls s) i LsDone Hne) as Hfd;
+         rewrite E in Hfi, Hff, Hfd; cbn [is_fwd b2n] in Hfi, Hff, Hfd end.
   all: try match goal with E : get 0 (rtrig (aux ?s)) ?i = S ?n |- _ =>
          assert (Hlt : i < length (rtrig (aux s))) by (apply get_pos_lt; rewrite E; discriminate);
          pose proof (sum_upd (rtrig (aux s)) i n Hlt) as Hsum; rewrite E in Hsum end.
